@@ -16,8 +16,21 @@ META = dict(
                "and rehash fuel = capacity + new capacity + 1, and keeps len = number of Valid slots < capacity; C19_step_bound (full) — the same as an inductive "
                "invariant from any table; C19_value_any_table / C19_values_any_table (full) — lookups need at most `capacity` iterations on every table whatsoever; "
                "C19_rehash_values_bound (full) — rehash_values terminates within its bound, keeps the number of Valid slots and leaves none beyond the new capacity "
-               "; C19_rehash_preserves_entries / C19_rehash_in_place_preserves_entries (full for the multiset claim: for every predicate the number of stored "
-               "(key, value) pairs satisfying it is unchanged by grow / shrink / in-place rehash; that every pair is still FOUND by probing afterwards is NOT proved). "
+               "; C19_rehash_preserves_entries / C19_rehash_in_place_preserves_entries (full: for every predicate the number of stored "
+               "(key, value) pairs satisfying it is unchanged by grow / shrink / in-place rehash). "
+               "FUNCTIONAL CORRECTNESS of the table (supports C10/C11, whose model DbModel.v abstracts the alias map and the indexes as association lists; "
+               "specification coq/theories/OpenMapSpec.v = a multimap as a multiset of pairs, proofs OpenMapRefine*.v; hypotheses: keqb/veqb decide equality, "
+               "mincap >= 4, wrap guard + iterator flag): C19_table_refines_multimap (full, all histories from the empty map: the run completes and the list of "
+               "results it returns is one the abstract multimap allows — values(k) compared as multisets, insert_or_replace may replace any qualifying pair —, "
+               "iter = the multimap, len = its size, invariant holds), C19_step_refines_multimap (full, simulation from any table satisfying the invariant), "
+               "C19_invariant_is (the invariant spelled out: len = #Valid < capacity + probe chain: every Valid slot is reachable from hash mod capacity without "
+               "crossing an Empty slot; no Empty slot need exist — lookups then end by the full-cycle guard), C19_lookup_finds_exactly_stored (full: values k = "
+               "exactly the stored values of k with multiplicity, value k = the first in probe order, contains_value / values_count / len agree), "
+               "C19_rehash_keeps_lookups / C19_rehash_in_place_keeps_lookups / C19_rehash_values_establishes_chain (full: after grow / shrink / in-place rehash every "
+               "lookup returns the same values; the in-place rehash leaves no tombstone), C19_map_unique_keys (full: MapImpl histories show EXACTLY the observations "
+               "of the ordinary finite map, at most one pair per key) + C19_finite_map_laws; non-vacuity C19_refinement_nonvacuous (constant hash, 64->128->64) and "
+               "C19_tombstones_nonvacuous (capacity-64 table without any Empty slot). Not covered by the refinement: contains_value's early exit (modelled as a "
+               "function of values), u64 overflow of capacity*15, storage errors. "
                "C19_pinned_refuted: before fix fc221a8, 64 x {insert; remove} of distinct keys "
                "leave no Empty slot and the next insert_or_replace runs out of EVERY fuel (the hang reproduced on the real database); C19_iter_pinned_refuted: the "
                "pinned MultiMapIterator yields the same value forever when it sits in the slot before the key's start slot of a table without Empty slot. "
@@ -31,12 +44,19 @@ META = dict(
                "it is tied to multi_map.rs by the hang witnesses (model and real database agree on the 64-cycle history and on the fix), by the watchdog runs and, "
                "when hook H1 (agdb::verif::VMultiMap, fixes/H1-multimap-wrapper.diff) is present in /repo, by algorithm-level differential execution: generated "
                "operation histories on the real MultiMapStorage<u64,u64> with the whole slot array (state, key, value per slot, len, capacity) compared after every "
-               "operation with the extracted OpenMap.v (identity hash, the code's constants); without the hook that part is skipped and reported in the notes. "
+               "operation with the extracted OpenMap.v (identity hash, the code's constants), and the SPECIFICATION run against the implementation as well: every "
+               "generated history is also executed on a plain shadow multimap (Vec of pairs) in the harness and after every operation its result, len, the iteration "
+               "and value/values of the operation's key and of a second key must be what OpenMapSpec.v allows (values as multisets), failure class "
+               "`map-spec-mismatch` with the history; one generator mode in four is removal-heavy churn over keys colliding modulo 64 at capacity 64 (probe chains "
+               "through tombstones, tables without Empty slot); `hx_core omap --replay FILE` replays an operation list on the real map with the same oracle; "
+               "without the hook that part is skipped and reported in the notes. "
                "Storage errors (Err paths) are not modelled.",
 )
 
 PROFILE = "hash"                        # alias / index insert-remove cycles over many distinct hashed keys
 CLASSES = ("timeout",)                  # a step that does not return within the watchdog limit
+# failure classes of the algorithm-level run (run_omap): `omap-invariant` (len / capacity), `map-spec-mismatch`
+# (a result of the real MultiMapStorage that the abstract multimap of OpenMapSpec.v does not allow)
 COMMON = ("panic", "read-error")        # failures that are violations wherever they show up
 
 
@@ -133,7 +153,11 @@ def run(ctx):
         r["samples"] = r["samples"][:2] + om["samples"][:2]
         r["dist"].update({"omap:" + k: v for k, v in om["dist"].items()})
         notes.append("algorithm-level: %d operation histories on the real MultiMapStorage<u64,u64> (VMultiMap), slot array after every operation "
-                     "compared with the extracted OpenMap.v (all three flags on); non-trivial = history that grew beyond 64 and shrank" % om["histories"])
+                     "compared with the extracted OpenMap.v (all three flags on), and every step checked against a shadow multimap = the specification "
+                     "OpenMapSpec.v (%d steps; class map-spec-mismatch); non-trivial = history that grew beyond 64 and shrank; %d histories reached a table without "
+                     "Empty slot, %d of them in the colliding-keys removal-heavy mode"
+                     % (om["histories"], om["dist"].get("spec-checked-steps", 0), om["dist"].get("history:reached-table-without-empty-slot", 0),
+                        om["dist"].get("history:colliding-keys-table-without-empty-slot", 0)))
     return dict(
         evaluations=r["cases"], distinct_nontrivial=r["nontrivial"], samples=r["samples"], dist=r["dist"],
         rule="%d generated query histories (profile %s, <= %d steps: alias insert/remove cycles, bulk inserts of 8..90 aliased nodes, bulk alias removal, "
